@@ -11,3 +11,33 @@ func init() {
 		Assumes:    []string{"go/types resolution of callees", "the standard library predicates met (unicode.Is*, strings.IndexRune) behave as tabulated for the constant eof"},
 	})
 }
+
+func init() {
+	register(&propSpec{
+		ID:    "C08",
+		Rules: []func(*Ctx){ruleR08a, ruleR08b, ruleR02a},
+		Explain: "R08a/R08c: interprocedural effect analysis over SSA and the VTA call graph (CHA in the thorough tier): every Store, MapUpdate, append/copy/delete/sort reachable from Renderer.Execute, Tofu.Render, EvalExpr, soyjs.Write and Generator.WriteFile is classified by the provenance of the object written; a write into a non-fresh object of a type declared in ast/template/soymsg/pomsg, into data.Map/data.List, or into a package variable is a violation.",
+		NotDecided: "determinism of functions that are random by specification (randomInt); behaviour of caller-supplied writers, bundles and callbacks.",
+		Assumes:    []string{"call graph (VTA; CHA in thorough) covers every dynamic call", "no reflection or unsafe writes in reachable code (asserted on every run)", "standard-library functions listed as allocating return fresh storage"},
+	})
+}
+
+func init() {
+	register(&propSpec{
+		ID:    "C02",
+		Rules: []func(*Ctx){ruleR02a, ruleR02b, ruleR02c},
+		Explain: "R02a: push/pop pairing of the renderer's scope in every soyhtml function (go/cfg dataflow over relative depth, raising paths exempt); R02b: every AST field the parser fills from a command body (derived from parse, not listed) is walked inside its own frame, or the *ast.ListNode case brackets its elements.",
+		NotDecided: "the rendered text of each command; call-name resolution through namespace/alias; header-param folding.",
+		Assumes:    []string{"go/cfg control flow; no-return functions inferred from the source (panic closure)"},
+	})
+}
+
+func init() {
+	register(&propSpec{
+		ID:    "C09",
+		Rules: []func(*Ctx){ruleR09a, ruleR08b, ruleR09b, ruleR09c, ruleR09d},
+		Explain: "R09a: the C08 effect analysis over every concurrent entry (render, JS generation; for parse/compile entries: package-state writes only) - no shared-memory write means no race among them; R08b: scope-frame freshness typestate; R09b: lexer fields written by the scanner goroutine and touched by the parser are disjoint except the channel; R09c: run closes the channel on every exit; R09d: no goroutine is started on the render path.",
+		NotDecided: "schedules as such are not explored; third-party writers, bundles and callbacks; Bundle.recompiler (WatchFiles), which upstream documents as not goroutine-safe.",
+		Assumes:    []string{"absence of shared writes is the sufficient condition for race freedom used here", "VTA call graph (CHA in thorough)", "channel operations synchronise"},
+	})
+}
